@@ -20,7 +20,7 @@ for pid in props:
         "evidence_file": f"/verif/evidence/{pid}.json",
         "replay_cmd_template": "./check --replay {path}",
         "engine": "govc",
-        "level_claimed": {"category": "proof", "text": c['text'], "design_ref": c.get('design_ref', 'DESIGN.md section 6/' + pid)},
+        "level_claimed": {"category": c.get("category", "proof"), "text": c['text'], "design_ref": c.get('design_ref', 'DESIGN.md section 6/' + pid)},
         "level_note": c['note'],
         "technique": c.get('technique', "contract-based deductive verification: weakest-precondition style VCs generated from go/ssa of /repo with contracts in //@ comment files, discharged by z3/cvc5"),
     })
